@@ -170,6 +170,14 @@ func (str *Structure) MakeSystemOfEquations() (mat.ReadOnlyMatrix, vec.ReadOnlyV
 		element.setEquationTerms(sysMatrix, sysVector)
 	}
 
+	// Degrees of freedom which no element refers to have no stiffness associated:
+	// they can't move, and are given the trivial equation x = 0.
+	for dof := 0; dof < str.DofsCount(); dof++ {
+		if len(sysMatrix.NonZeroIndicesAtRow(dof)) == 0 {
+			sysMatrix.SetIdentityRow(dof)
+		}
+	}
+
 	str.addDispConstraints(sysMatrix, sysVector)
 
 	return sysMatrix, sysVector
